@@ -40,6 +40,13 @@ func TestVerifC07Sqlc(t *testing.T) {
 	defer func() { singleFlights = processWide }()
 	verifc07.WriteTrace(t, secs, func(cfg verifh.Cfg) verifc07.Target {
 		mr.FlushAll()
+		mr, rds := mr, rds
+		if cfg.Int("dl", 0) == 1 {
+			// breaker isolated: the failures of this section's expired-deadline calls are counted by a breaker no other
+			// section shares (redis clients - and with them the breaker hook - are cached per address)
+			mr = miniredis.RunT(t)
+			rds = redis.New(mr.Addr())
+		}
 		singleFlights = processWide
 		if sfd := cfg.Str("sfd", "-"); sfd != "-" {
 			singleFlights = verifc07.NewSlowSF(sfd, processWide.Do, processWide.DoEx)
@@ -98,6 +105,10 @@ func TestVerifC07Sqlc(t *testing.T) {
 					var cancel context.CancelFunc
 					ctx, cancel = context.WithCancel(ctx)
 					cancel()
+				case 3:
+					var cancel context.CancelFunc
+					ctx, cancel = context.WithDeadline(ctx, time.Now().Add(-time.Second))
+					defer cancel()
 				}
 				var err error
 				if c.EP() >= 2 {
